@@ -116,6 +116,11 @@ impl MuxStream {
     #[tracing::instrument(skip_all, level = "trace", fields(flow_id = %format_args!("{:08x}", self.flow_id)))]
     #[inline]
     pub fn poll_write_push(&self, cx: &Context<'_>, buf: &[u8]) -> Poll<Option<()>> {
+        if buf.is_empty() {
+            // Never send an empty `Push` frame: the receiving end cannot tell it from EOF.
+            // A zero-length write needs no credit and transmits nothing.
+            return Poll::Ready((!self.finish_sent.load(Ordering::Relaxed)).then_some(()));
+        }
         let Some(()) = ready!(self.poll_obtain_write_permission(cx)) else {
             return Poll::Ready(None);
         };
@@ -297,6 +302,11 @@ mod tokio_io_impls {
             for buf in bufs {
                 total_len += buf.len();
                 slices.push(CowBytes::Temporary(buf));
+            }
+            if total_len == 0 {
+                // See `poll_write_push`: an empty `Push` frame would look like EOF to the peer
+                ready!(self.poll_write_push(cx, &[])).ok_or(BrokenPipe)?;
+                return Poll::Ready(Ok(0));
             }
             let Some(()) = ready!(self.poll_obtain_write_permission(cx)) else {
                 return Poll::Ready(Err(io::ErrorKind::BrokenPipe.into()));
